@@ -55,6 +55,10 @@ func AesDecrypt(encResult, key []byte) ([]byte, error) {
 		return nil, err
 	}
 	blockSize := block.BlockSize()
+	// CryptBlocks panics if the input is not full blocks. The input may come from network
+	if len(encResult) == 0 || len(encResult)%blockSize != 0 {
+		return nil, ErrPKCS5UnPadding
+	}
 	blockMode := cipher.NewCBCDecrypter(block, key[:blockSize])
 	origData := make([]byte, len(encResult))
 	blockMode.CryptBlocks(origData, encResult)
